@@ -82,6 +82,17 @@ def _do_emit(ctx, src_node, entry, pid, k, item, loop_obj):
         else:
             rec.rec('flush_ret', item['flush'])
         return None, False
+    if 'restart' in item:
+        # start() called (again) on a node of a pipeline that is already running: it travels upstream through
+        # every node; what is flowing must neither be lost nor change its order
+        rec.rec('restart_call', item['restart'], item.get('how', 'start'))
+        try:
+            if item.get('how') == 'stop_start':
+                ctx.nodes[item['restart']].stop()
+            ctx.nodes[item['restart']].start()
+        except Exception as e:     # noqa
+            rec.rec('restart_exc', item['restart'], describe_exc(e))
+        return None, False
     value = item['v']
     md = make_md(ctx, item, loop_obj, value)
     root = (pid, k)
@@ -119,17 +130,20 @@ def run_async(sc, max_rounds=120):
         else:
             rec.rec('emit_done', pid, k, 'ok')
 
-    async def producer(pid, p, tl):
+    async def producer(pid, p, tl, pre=None):
         entry = p['entry']
         src = ctx.nodes[entry]
         if p.get('start'):
             await asyncio.sleep(p['start'])
         for k, item in enumerate(p['items']):
-            if item.get('gap'):
-                await asyncio.sleep(item['gap'])
-            r, failed = _do_emit(ctx, src, entry, pid, k, item, tl)
+            if k == 0 and pre is not None:
+                r, failed = pre        # (emitted right after the graph was built, before the loop had a turn)
+            else:
+                if item.get('gap'):
+                    await asyncio.sleep(item['gap'])
+                r, failed = _do_emit(ctx, src, entry, pid, k, item, tl)
             if r is None:
-                if not failed and 'flush' not in item:
+                if not failed and 'flush' not in item and 'restart' not in item:
                     rec.rec('emit_done', pid, k, 'ok')
                 continue
             if p.get('await', True):
@@ -145,7 +159,15 @@ def run_async(sc, max_rounds=120):
             from . import fakedask
             fakedask.install(fakedask.FakeClient(lp, rec, sc['dask']))
         build_graph(ctx, {'asynchronous': True})
-        tasks = [asyncio.ensure_future(producer(pid, p, tl))
+        pre = {}
+        if sc.get('emit_at_once'):
+            # the first element is pushed in the same step that built the graph - before any callback the
+            # nodes scheduled at construction (tick loops, drain loops) has run
+            for pid, p in enumerate(sc['producers']):
+                it = p['items'][0] if p['items'] else None
+                if it is not None and not p.get('start') and not it.get('gap') and 'flush' not in it:
+                    pre[pid] = _do_emit(ctx, ctx.nodes[p['entry']], p['entry'], pid, 0, it, tl)
+        tasks = [asyncio.ensure_future(producer(pid, p, tl, pre.get(pid)))
                  for pid, p in enumerate(sc['producers'])]
         rounds = 0
         settled = False
@@ -267,7 +289,7 @@ def run_loopless(sc):
         p = sc['producers'][pid]
         item = p['items'][k]
         r, failed = _do_emit(ctx, ctx.nodes[p['entry']], p['entry'], pid, k, item, None)
-        if not failed and 'flush' not in item:
+        if not failed and 'flush' not in item and 'restart' not in item:
             rec.rec('emit_done', pid, k, 'ok')
         rec.rec('idle')
     rec.rec('quiescent', 0, len(sc['producers']))
